@@ -8,6 +8,7 @@ import re
 from hypothesis import strategies as st
 
 from ..common import Violation, Skip, run_cases, guarded, rejection_types
+from ..gen.templates import programs_or_templates
 from ..gen.programs import programs, build, render_program, render_proc, CONFIG_PRELUDE
 from ..exoutil import exec_source
 from .. import sched
@@ -192,7 +193,7 @@ def case_strategy():
     prep = st.tuples(st.sampled_from(["simplify", "inline_window", "simplify", "divide_loop", "reorder_stmts", "unroll_loop", "cut_loop", "shift_loop"]), st.integers(0, 20), st.integers(0, 11), st.integers(0, 23)).map(list)
     return st.fixed_dictionaries(
         {
-            "prog": programs(max_stmts=9, config_pct=15, calls=True, force_call=True),
+            "prog": programs_or_templates(12, max_stmts=9, config_pct=15, calls=True, force_call=True),
             "call": st.integers(0, 5),
             "prep": st.lists(prep, min_size=0, max_size=2),
             "mode": st.integers(0, 3),
